@@ -427,7 +427,7 @@ def main(argv):
     ck.assumptions = ["counts, offsets, sizes below 2^31 (no dim_t overflow)",
                       "host pointers passed to malloc/copyFrom/copyTo/wrapMemory address arrays at least as long as the request",
                       "host backends only (serial::memory, inherited by the OpenMP device)"]
-    ck.translate([])
+    ck.translate(["gen_mem"])
     ck.prove("C02")
     hb = ck.harness("h_mem")
     db = ck.driver("drv_mem")
